@@ -192,7 +192,7 @@ type ChunkReader struct {
 	FinalErr  error // error returned at end of data (default io.EOF)
 	FailAt    int   // if >=0: byte offset at which FailErr is returned instead of data
 	FailErr   error
-	FailStyle int // 0: (0,err) once the offset is reached; 1: deliver the bytes before the offset together with err
+	FailStyle int  // 0: (0,err) once the offset is reached; 1: deliver the bytes before the offset together with err
 	Faulted   bool // the failure was actually delivered
 	Budget    int
 	MaxPos    int
@@ -280,6 +280,39 @@ func (c *ChunkReader) Read(p []byte) (int, error) {
 	}
 	return n, nil
 }
+
+// ByteChunkReader is a ChunkReader that also offers io.ByteReader, as bytes.Reader, bytes.Buffer and bufio.Reader do:
+// a decoder that probes its reader for the optional interface takes a different path through the same schedule.
+type ByteChunkReader struct{ *ChunkReader }
+
+func (b ByteChunkReader) ReadByte() (byte, error) {
+	var p [1]byte
+	for i := 0; i < 4; i++ {
+		n, err := b.ChunkReader.Read(p[:])
+		if n == 1 {
+			if err != nil {
+				// io.ByteReader cannot return a byte together with an error: the error comes with the next call
+				b.ChunkReader.Faulted = false
+			}
+			return p[0], nil
+		}
+		if err != nil {
+			return 0, err
+		}
+	}
+	return 0, io.ErrNoProgress
+}
+
+// RichFaultWriter is a FaultWriter that also offers io.ByteWriter and io.StringWriter (as bytes.Buffer and
+// bufio.Writer do); each such call counts as one Write call of the fault schedule.
+type RichFaultWriter struct{ *FaultWriter }
+
+func (w RichFaultWriter) WriteByte(c byte) error {
+	_, err := w.FaultWriter.Write([]byte{c})
+	return err
+}
+
+func (w RichFaultWriter) WriteString(s string) (int, error) { return w.FaultWriter.Write([]byte(s)) }
 
 // FaultWriter fails at a chosen Write call.
 type FaultWriter struct {
